@@ -47,4 +47,12 @@ class DecayKernelAllSizes(Contract):
         return iter(())
 
     def static_obligations(self, tier):
-        return records(no_irf_spec(), self.name)
+        import numpy as np
+
+        from contracts.unbounded import crosscheck
+
+        def args(rng, k):
+            nt, nr = rng.integers(0, 4), rng.integers(0, 4)
+            return {"matrix": np.zeros((nt, nr)), "rates": rng.uniform(0.1, 2, nr), "times": rng.uniform(-1, 3, nt)}
+
+        return records(no_irf_spec(), self.name) + crosscheck(no_irf_spec(), args)
